@@ -290,6 +290,24 @@ def run_routes(ctx, p):
     R0, R1 = np.asarray(p['R0'], dtype=np.float64), np.asarray(p['R1'], dtype=np.float64)
     s = p['s']
     sig = dict(api='routes')
+    if p.get('stype'):
+        # the same number s (a multiple of 1/256: exact in every type) handed over as a NumPy scalar of a narrow or integer type
+        s_float = float(s)
+        s = {'np.float16': np.float16, 'np.float32': np.float32, 'np.float64': np.float64, 'int': int, 'np.int64': np.int64}[p['stype']](s)
+        sig['stype'] = p['stype']
+        try:
+            th0_, th1_ = float(np.arctan2(R0[1, 0], R0[0, 0])), float(np.arctan2(R1[1, 0], R1[0, 0]))
+            pairs = [('trinterp', base.trinterp(R0, R1, s), base.trinterp(R0, R1, s_float)),
+                     ('trinterp2', base.trinterp2(ref.rot2(th0_), ref.rot2(th1_), s), base.trinterp2(ref.rot2(th0_), ref.rot2(th1_), s_float)),
+                     ('trinterp2(SE2)', base.trinterp2(None, ref.rt2tr(ref.rot2(th1_), [1.0, -2.0]), s), base.trinterp2(None, ref.rt2tr(ref.rot2(th1_), [1.0, -2.0]), s_float)),
+                     ('SE2.interp', sm.SE2(1, -2, th1_).interp(s).A, sm.SE2(1, -2, th1_).interp(s_float).A)]
+        except Exception as e:
+            ctx.bad('routes', dict(sig, kind='raised', exc=type(e).__name__), 'interpolation with s=%r (%s) raised %r' % (s, p['stype'], e))
+            return
+        for nm_, got_, want_ in pairs:
+            d_ = float(np.max(np.abs(np.asarray(got_, dtype=np.float64) - np.asarray(want_, dtype=np.float64))))
+            ctx.judge('routes', d_ <= TOL, dict(sig, kind='scalar_type_changes_value', route=nm_),
+                      lambda: '%s with s = %r given as %s differs by %.3g from the same call with the Python float' % (nm_, s_float, p['stype'], d_))
     try:
         A = base.trinterp(R0, R1, s)
         B = sm.SO3(R1).interp(s, start=sm.SO3(R0)).A
@@ -466,3 +484,7 @@ def run(ctx):
         elif r_ < 0.5:
             sv = [sv[0]] * 2 + sv[::-1]
         drive(RUNNERS, ctx, 'routes', dict(R0=R0, R1=R1, s=float(rng.random()), svec=sv))
+        if rng.random() < 0.25:
+            st_ = ['np.float16', 'np.float32', 'np.float64', 'int', 'np.int64'][rng.integers(5)]
+            drive(RUNNERS, ctx, 'routes', dict(R0=R0, R1=R1, s=float(rng.integers(0, 2)) if st_.endswith(('int', 'int64')) else float(rng.integers(0, 257)) / 256,
+                                               svec=sv, stype=st_))
